@@ -64,5 +64,31 @@ func (o *Once) Do(f func()) {
 
 // WaitGroup, Pool and Map keep their standard behaviour (not used for mutual exclusion in the instrumented code).
 type WaitGroup = sync.WaitGroup
-type Pool = sync.Pool
+
+// Pool: sync.Pool may hand any object that was Put to any later Get; the real one keeps per-P caches, so under the
+// cooperative scheduler two threads would rarely see each other's objects. This one is a single LIFO shared by all
+// threads - the most sharing sync.Pool's contract allows - with scheduling points at Get and Put.
+type Pool struct {
+	New   func() interface{}
+	items []interface{}
+}
+
+func (p *Pool) Get() interface{} {
+	vsched.Yield("Pool.Get")
+	if n := len(p.items); n > 0 {
+		x := p.items[n-1]
+		p.items = p.items[:n-1]
+		return x
+	}
+	if p.New != nil {
+		return p.New()
+	}
+	return nil
+}
+
+func (p *Pool) Put(x interface{}) {
+	p.items = append(p.items, x)
+	vsched.Yield("Pool.Put")
+}
+
 type Map = sync.Map
